@@ -195,7 +195,7 @@ fn triage(case: &Case, errs: &[RustcError], bindings: &str, st: &mut Stats) {
     let opts: String = [has("--with-derive-partialord"), has("--with-derive-ord"), has("--with-derive-partialeq"), has("--with-derive-eq"), has("--impl-debug"), has("--impl-partialeq"), has("--explicit-padding"), newtype, has("--no-derive-copy"), has("--c-naming"), case.flags.windows(2).any(|w| w[0] == "--default-enum-style" && (w[1].starts_with("newtype") || w[1] == "bitfield")) || case.flags.iter().any(|f| f.starts_with("--bitfield-enum") || f.starts_with("--newtype-enum") || f.starts_with("--newtype-global-enum")),
         case.flags.windows(2).any(|w| w[0] == "--default-enum-style" && w[1] == "moduleconsts") || case.flags.iter().any(|f| f.starts_with("--constified-enum-module")),
         case.flags.windows(2).any(|w| w[0] == "--default-non-copy-union-style" && w[1] == "manually_drop"),
-        has("--flexarray-dst")].iter().map(|b| if *b { '1' } else { '0' }).collect();
+        has("--flexarray-dst"), has("--represent-cxx-operators")].iter().map(|b| if *b { '1' } else { '0' }).collect();
     let h = &case.header;
     let compact: String = h.split_whitespace().collect::<Vec<_>>().join(" ");
     let empty_union = regex_like_empty(&compact, "union");
@@ -271,6 +271,15 @@ fn panic_triage(case: &Case, msg: &str, st: &mut Stats) {
             return;
         }
     }
+    if msg.contains("is not a valid Ident") || loc.contains("is not a valid Ident") || err.contains("is not a valid Ident") {
+        let opts: String = (0..15).map(|i| if i == 14 && has("--represent-cxx-operators") { '1' } else { '0' }).collect();
+        let facts: String = (0..12).map(|i| if i == 7 && case.cpp { '1' } else { '0' }).collect();
+        let ans = model_one(format!("c01 region opts={opts} facts={facts} err=identPanic"));
+        if ans != "-" && !ans.starts_with("bad") {
+            *st.known.entry(format!("{ans}: bindgen panics ({}) on a header clang accepts; flags {:?}", err.lines().find(|l| l.contains("not a valid Ident")).unwrap_or("").trim(), case.flags)).or_insert(0) += 1;
+            return;
+        }
+    }
     st.fail("oracle", &format!("bindgen-panic {}", loc.chars().filter(|c| !c.is_ascii_digit()).take(80).collect::<String>()), format!("{msg} | {loc}"), case);
 }
 
@@ -294,7 +303,7 @@ fn err_class(e: &RustcError) -> &'static str {
         "E0587" => "e0587",
         "E0223" => "e0223",
         "E0308" => "e0308",
-        "E0392" => "e0392",
+        "E0392" | "E0282" => "e0392",
         "E0428" => "dupName",
         "E0133" => "e0133",
         "E0054" => "e0054",
@@ -579,7 +588,7 @@ fn part_r(args: &Args, root: &Path, st: &mut Stats) {
         let edition_used = bflags.windows(2).find(|w| w[0] == "--rust-edition").map(|w| w[1].clone()).unwrap_or_else(|| if bflags.iter().any(|f| f.starts_with("--rust-target")) { "2021".into() } else { edition.to_string() });
         let mut case = Case { name: format!("mut_{}_{kind}", p.file_name().unwrap().to_string_lossy()), cpp, header: m.clone(), flags: bflags.clone(), clang_args: cargs.clone(), edition: edition_used, blocklisted, facts: Facts { idents: tokenize(&m).into_iter().filter(|t| t.chars().next().is_some_and(|c| c.is_alphabetic() || c == '_')).collect(), ..Default::default() }, origin: format!("{}:{kind}", p.display()), bindings: None };
         if rc != 0 {
-            if err.contains("panicked at") { st.bump("bindgen_panics", 1); st.fail("oracle", &format!("bindgen-panic {}", err.lines().find(|l| l.contains("panicked at")).unwrap_or("").chars().filter(|c| !c.is_ascii_digit()).take(70).collect::<String>()), err.chars().take(1200).collect(), &case); }
+            if err.contains("panicked at") { st.bump("bindgen_panics", 1); let msg = err.lines().skip_while(|l| !l.contains("panicked at")).nth(1).unwrap_or("").to_string(); panic_triage(&case, &msg, st); }
             else { st.bump("bindgen_errors", 1); }
             let _ = std::fs::remove_dir_all(&dir);
             continue;
